@@ -38,14 +38,23 @@ ACCESSORS = {"year": "fy", "month": "fm", "day": "fd", "hour": "fhh", "minute": 
 TRANSPARENT = ("ParenExpr", "ExprWithCleanups", "MaterializeTemporaryExpr", "ConstantExpr", "CXXBindTemporaryExpr")
 CASTS = ("ImplicitCastExpr", "CXXStaticCastExpr", "CStyleCastExpr", "CXXFunctionalCastExpr")
 WIDTH = {"long": 64, "long long": 64, "int": 32, "short": 16, "signed char": 8, "char": 8, "bool": 1}
+ENUM_WIDTH = 32
 
 
-def asts_of(fn):
+INFO_CC = "src/time_zone_info.cc"
+TARGETS2 = ["IsLeap", "ToPosixWeekday", "AllYearDST", "TransOffset"]      # src/time_zone_info.cc
+
+
+def clang_docs(flt, path):
     r = subprocess.run(["clang++", "-std=c++11", "-fsyntax-only", "-I" + os.path.join(REPO, "include"),
-                        "-Xclang", "-ast-dump=json", "-Xclang", "-ast-dump-filter=" + fn, os.path.join(REPO, HEADER)],
-                       stdout=subprocess.PIPE, stderr=subprocess.DEVNULL, text=True)
+                        "-I" + os.path.join(REPO, "src"), "-Xclang", "-ast-dump=json", "-Xclang", "-ast-dump-filter=" + flt,
+                        os.path.join(REPO, path)], stdout=subprocess.PIPE, stderr=subprocess.DEVNULL, text=True)
+    return docs(r.stdout)
+
+
+def asts_of(fn, path=HEADER):
     out, seen = [], set()
-    for d in docs(r.stdout):
+    for d in clang_docs(fn, path):
         if d.get("kind") == "FunctionDecl" and d.get("name") == fn and d.get("id") not in seen \
                 and any(c.get("kind") == "CompoundStmt" for c in d.get("inner", [])):
             seen.add(d.get("id"))
@@ -53,6 +62,75 @@ def asts_of(fn):
     if not out:
         raise Untranslatable("no definition of " + fn)
     return out
+
+
+_GLOBALS = {}
+
+
+def fold(n, path):
+    """constant-fold an initialiser made of literals, other global constants and + - * : int, list, or None"""
+    k = n.get("kind")
+    if k in TRANSPARENT or k in CASTS:
+        return fold(n["inner"][-1], path)
+    if k == "IntegerLiteral":
+        return int(n["value"])
+    if k == "InitListExpr":
+        vals = [fold(e, path) for e in n.get("inner", [])]
+        return None if any(v is None for v in vals) else vals
+    if k == "UnaryOperator" and n.get("opcode") == "-":
+        v = fold(n["inner"][0], path)
+        return None if not isinstance(v, int) else -v
+    if k == "BinaryOperator" and n.get("opcode") in ("+", "-", "*"):
+        a, b = fold(n["inner"][0], path), fold(n["inner"][1], path)
+        if isinstance(a, int) and isinstance(b, int):
+            return {"+": a + b, "-": a - b, "*": a * b}[n["opcode"]]
+        return None
+    if k == "DeclRefExpr" and n.get("referencedDecl", {}).get("kind") == "VarDecl":
+        return global_const(n["referencedDecl"]["name"], path)
+    return None
+
+
+def global_const(name, path):
+    """value of a namespace-scope const variable with a constant initialiser (int or nested list), else None"""
+    key = (path, name)
+    if key not in _GLOBALS:
+        _GLOBALS[key] = None
+        for d in clang_docs(name, path):
+            if d.get("kind") == "VarDecl" and d.get("name") == name and d.get("inner") \
+                    and "const" in d.get("type", {}).get("qualType", ""):
+                _GLOBALS[key] = fold(d["inner"][-1], path)
+                break
+    return _GLOBALS[key]
+
+
+_ENUMS = {}
+
+
+def enum_value(ref, path):
+    """value of an enumerator (declaration order, explicit initialisers honoured)"""
+    ename = ref.get("type", {}).get("qualType", "").split("::")[-1]
+    key = (path, ename)
+    if key not in _ENUMS:
+        vals = {}
+        for d in clang_docs(ename, path):
+            for m in walk(d):
+                if m.get("kind") == "EnumDecl" and m.get("name") == ename:
+                    nxt = 0
+                    for c in m.get("inner", []):
+                        if c.get("kind") == "EnumConstantDecl":
+                            v = None
+                            for q in walk(c):
+                                if q.get("kind") == "ConstantExpr" and "value" in q:
+                                    v = int(q["value"])
+                                    break
+                            if v is None:
+                                v = nxt
+                            vals[c["name"]] = v
+                            nxt = v + 1
+        _ENUMS[key] = vals
+    if ref.get("name") not in _ENUMS[key]:
+        raise Untranslatable("enumerator " + str(ref.get("name")))
+    return _ENUMS[key][ref["name"]]
 
 
 def tystr(t):
@@ -64,7 +142,23 @@ def width(n):
     s = tystr(n.get("type", {}))
     if s in WIDTH:
         return WIDTH[s]
+    if re.search(r"\b(weekday|DateFormat)$", s) or s.startswith("enum "):
+        return ENUM_WIDTH
     raise Untranslatable("type " + s)
+
+
+def member_path(n):
+    """(root parameter name, [member names]) of a MemberExpr chain, anonymous unions skipped; or None"""
+    names = []
+    while n.get("kind") == "MemberExpr":
+        if n.get("name"):
+            names.append(n["name"])
+        n = n["inner"][0]
+        while n.get("kind") in TRANSPARENT or n.get("kind") in CASTS:
+            n = n["inner"][-1]
+    if n.get("kind") == "DeclRefExpr" and n.get("referencedDecl", {}).get("kind") == "ParmVarDecl":
+        return n["referencedDecl"]["name"], list(reversed(names))
+    return None
 
 
 def is_fields(n):
@@ -118,9 +212,11 @@ def zl(v):
 
 
 class Fn:
-    def __init__(self, ast, gname, known):
-        self.ast, self.gname, self.known = ast, gname, known   # known: key -> (gallina name, needs fuel, returns fields, returns bool)
+    def __init__(self, ast, gname, known, path=HEADER):
+        self.ast, self.gname, self.known, self.path = ast, gname, known, path   # known: key -> (gallina name, needs fuel, returns fields, returns bool)
         self.loops, self.tmp = [], 0
+        self.struct_params = {}                                 # struct parameter -> sorted list of scalar member paths used
+        self.gtables = {}                                       # global table name -> Gallina literal
         self.rec_vars = {}                                      # fields / civil parameters -> True
         self.bool_vars = set()
         self.tables = set()
@@ -210,16 +306,26 @@ class Fn:
         if k == "DeclRefExpr":
             ref = n.get("referencedDecl", {})
             name = ref.get("name")
-            if ref.get("kind") == "EnumConstantDecl" and name in WEEKDAYS:
+            if ref.get("kind") == "EnumConstantDecl" and name in WEEKDAYS and "weekday" in ref.get("type", {}).get("qualType", ""):
                 return [], zl(WEEKDAYS[name]), "Z"
+            if ref.get("kind") == "EnumConstantDecl":
+                return [], zl(enum_value(ref, self.path)), "Z"
             if name in scope:
                 return [], name, "bool" if name in self.bool_vars else "Z"
+            if ref.get("kind") == "VarDecl":
+                v = global_const(name, self.path)
+                if isinstance(v, int):
+                    return [], zl(v), "Z"
             raise Untranslatable("unknown name " + str(name))
         if k == "MemberExpr":
             obj = strip(inner[0])
             v = obj.get("referencedDecl", {}).get("name")
             if v in self.rec_vars and n.get("name") in FIELDS:
                 return [], "(%s %s)" % (FIELDS[n["name"]], v), "Z"
+            mp = member_path(n)
+            if mp is not None and mp[0] in self.struct_params:
+                width(n)
+                return [], "%s_%s" % (mp[0], "_".join(mp[1])), "bool" if tystr(n.get("type", {})) == "bool" else "Z"
             raise Untranslatable("member access " + str(n.get("name")))
         if k == "CXXMemberCallExpr":
             me = inner[0]
@@ -297,13 +403,33 @@ class Fn:
             e = "(if %s then %s else %s)" % (tc, self.block(ba, "OK %s" % ta), self.block(bb, "OK %s" % tb))
             return bc + ["do %s <- %s ;;\n" % (x, e)], x, kd
         if k == "ArraySubscriptExpr":
-            base = strip(inner[0])
+            idxs, base = [], n
+            while base.get("kind") == "ArraySubscriptExpr":
+                idxs.append(base["inner"][1])
+                base = strip(base["inner"][0])
+            idxs.reverse()
             tname = base.get("referencedDecl", {}).get("name")
-            if tname not in self.tables:
-                raise Untranslatable("subscript of " + str(tname))
-            b, t, kd = self.expr(inner[1], scope)
+            if tname in self.tables and len(idxs) == 1:
+                tref = tname
+            else:
+                v = global_const(tname, self.path) if base.get("referencedDecl", {}).get("kind") == "VarDecl" else None
+                if not isinstance(v, list):
+                    raise Untranslatable("subscript of " + str(tname))
+                depth = 2 if v and isinstance(v[0], list) else 1
+                if depth != len(idxs):
+                    raise Untranslatable("partial subscript of " + str(tname))
+                self.gtables[tname] = ("[" + "; ".join("[" + "; ".join(zl(x) for x in row) + "]" for row in v) + "]") if depth == 2 \
+                    else "[" + "; ".join(zl(x) for x in v) + "]"
+                tref = "g_" + tname
+            binds, terms = [], []
+            for ix in idxs:
+                b, t, kd = self.expr(ix, scope)
+                binds += b
+                terms.append(self.as_z(t, kd))
             x = self.fresh()
-            return b + ["do %s <- tbl_get %s %s ;;\n" % (x, tname, self.as_z(t, kd))], x, "Z"
+            if len(terms) == 1:
+                return binds + ["do %s <- tbl_get %s %s ;;\n" % (x, tref, terms[0])], x, "Z"
+            return binds + ["do %s <- tbl_get2 %s %s %s ;;\n" % (x, tref, terms[0], terms[1])], x, "Z"
         if k == "CallExpr":
             b, c, rf, rb = self.call(n, scope)
             if rf:
@@ -535,6 +661,33 @@ class Fn:
             b = self.seq(el, scope, ("fall", vs), ret_fields)
             return "%sdo %s <- (if %s then (\n%s\n) else (\n%s\n)) ;;\n%s" % (
                 pre, self.pat(vs), c, a, b, self.seq(rest, scope, tail, ret_fields))
+        if k == "SwitchStmt":
+            cb, ct, ckd = self.expr(st["inner"][0], scope)
+            body = self.body_list(st["inner"][-1])
+            arms = []
+            for cs_ in body:
+                if cs_.get("kind") != "CaseStmt" or len(cs_.get("inner", [])) != 2 or "value" not in cs_["inner"][0]:
+                    raise Untranslatable("switch arm that is not a single `case K: stmt`")
+                stmts_ = self.body_list(cs_["inner"][1])
+                if not stmts_ or stmts_[-1].get("kind") not in ("BreakStmt", "ReturnStmt"):
+                    raise Untranslatable("switch arm that falls through")
+                arms.append((int(cs_["inner"][0]["value"]), stmts_))
+            sel = self.as_z(ct, ckd)
+            if all(a[-1].get("kind") == "BreakStmt" and not self.escapes(a[:-1]) for _, a in arms):
+                vs = self.assigned([x for _, a in arms for x in a], scope)
+                if not vs:
+                    raise Untranslatable("switch without effect")
+                chain = "OK %s" % self.tup(vs)
+                for val, a in reversed(arms):
+                    chain = "if %s =? %s then (\n%s\n) else (\n%s\n)" % (sel, zl(val), self.seq(a[:-1], scope, ("fall", vs), ret_fields), chain)
+                return "%sdo %s <- (%s) ;;\n%s" % ("".join(cb), self.pat(vs), chain, self.seq(rest, scope, tail, ret_fields))
+            # arms that return: each arm continues with the rest of the block unless it always escapes
+            chain = self.seq(rest, scope, tail, ret_fields)
+            for val, a in reversed(arms):
+                a2 = a[:-1] if a[-1].get("kind") == "BreakStmt" else a
+                chain = "if %s =? %s then (\n%s\n) else (\n%s\n)" % (
+                    sel, zl(val), self.seq(a2 if self.always_escapes(a2) else a2 + rest, scope, tail, ret_fields), chain)
+            return "".join(cb) + chain
         if k == "ForStmt":
             if any(h for h in st["inner"][:4]):
                 raise Untranslatable("for loop with a header")
@@ -566,6 +719,20 @@ class Fn:
                 if is_fields(c) or is_civil(c):
                     self.rec_vars[p] = True
                     params.append("(%s : fields)" % p)
+                elif re.search(r"\b(PosixTransition|PosixTimeZone)\b", t):
+                    paths = {}
+                    for m in walk(self.ast):
+                        if m.get("kind") == "MemberExpr":
+                            mp = member_path(m)
+                            if mp is not None and mp[0] == p and tystr(m.get("type", {})) in WIDTH or \
+                                    (mp is not None and mp[0] == p and re.search(r"DateFormat$", tystr(m.get("type", {})))):
+                                paths["_".join(mp[1])] = tystr(m.get("type", {})) == "bool"
+                    self.struct_params[p] = sorted(paths)
+                    for q in sorted(paths):
+                        nm = "%s_%s" % (p, q)
+                        params.append("(%s : %s)" % (nm, "bool" if paths[q] else "Z"))
+                        if paths[q]:
+                            self.bool_vars.add(nm)
                 elif tystr(c.get("type", {})) == "bool":
                     self.bool_vars.add(p)
                     params.append("(%s : bool)" % p)
@@ -580,6 +747,7 @@ class Fn:
         ret_fields = re.search(r"\bfields\b", rt) is not None
         self.ret_bool = rt == "bool"
         term = self.seq(self.body_list(body), scope, ("none",), ret_fields)
+        term = "".join("let g_%s := %s in\n" % (g, v) for g, v in sorted(self.gtables.items())) + term
         text = "".join(self.loops)
         text += "Definition %s %s%s : res %s :=\n%s.\n" % (
             self.gname, "(fuel : nat) " if self.fuel else "", " ".join(params),
@@ -597,14 +765,18 @@ def main():
              "From CCTZ Require Import Base Cal.", "Local Open Scope Z_scope.",
              "Definition b2z (b : bool) : Z := if b then 1 else 0.",
              "Definition tbl_get (l : list Z) (i : Z) : res Z :=",
-             "  if (0 <=? i) && (i <? Z.of_nat (length l)) then OK (nth (Z.to_nat i) l 0) else Err OOB.", ""]
+             "  if (0 <=? i) && (i <? Z.of_nat (length l)) then OK (nth (Z.to_nat i) l 0) else Err OOB.",
+             "Definition tbl_get2 (l : list (list Z)) (i j : Z) : res Z :=",
+             "  if (0 <=? i) && (i <? Z.of_nat (length l)) then tbl_get (nth (Z.to_nat i) l []) j else Err OOB.", ""]
     known, done, failed = {}, [], {}
-    for fn in TARGETS:
+    for fn, path in [(t, HEADER) for t in TARGETS] + [(t, INFO_CC) for t in TARGETS2]:
         try:
-            asts = asts_of(fn)
+            asts = asts_of(fn, path)
         except Untranslatable as e:
             failed[fn] = str(e)
             continue
+        if path != HEADER and fn == TARGETS2[0]:
+            lines.append("(* ---- src/time_zone_info.cc ---- *)\n")
         for a in asts:
             key = fn
             if fn in TAGGED:
@@ -615,7 +787,7 @@ def main():
                         break
                 key = "%s_%s" % (fn, tag)
             try:
-                f = Fn(a, "s64_" + key, known)
+                f = Fn(a, "s64_" + key, known, path)
                 text, rf = f.translate()
                 lines.append(text)
                 known[key] = ("s64_" + key, f.fuel, rf, f.ret_bool)
